@@ -178,10 +178,9 @@ Section Table.
     table_word n (cn_uid s0) (cn_uid t) = Some (emit_word (ri_route_bits ri) (i, r)).
   Proof.
     intros Hs0 Ht Hgr.
-    destruct (emit_inv _ _ _ He) as (_ & axi & rts & _ & _ & Hn). unfold table_word. rewrite Hn. cbn [n_tables].
-    rewrite Hcd, Halgo. unfold emit_tables.
+    destruct (emit_inv _ _ _ He) as (_ & axi & rts & _ & _ & Hn). unfold table_word. rewrite Hn. cbn [n_tables n_nis].
+    rewrite Hcd, Halgo. unfold emit_tables. rewrite map_length. fold N.
     assert (Hlen : length (by_id_desc ni_key (c_nis c)) = N) by (unfold by_id_desc; rewrite rev_length, sort_by_length; reflexivity).
-    rewrite map_length, Hlen.
     pose proof (uids_range d g c Hb Hc s0 Hs0) as Hr0. pose proof (uids_range d g c Hb Hc t Ht) as Hrt. fold N in Hr0, Hrt.
     destruct ((cn_uid s0 <? 0) || (Z.of_nat N <=? cn_uid s0)) eqn:E1; [lia|].
     replace (Z.to_nat (Z.of_nat N - 1 - cn_uid s0)) with (N - 1 - Z.to_nat (cn_uid s0))%nat by lia.
@@ -190,7 +189,6 @@ Section Table.
     pose proof (routes_keys s0 rs Hrs) as Hkeys. pose proof (mapM_length _ _ _ Hrs) as Hlrs. fold N in Hlrs.
     assert (Hlen2 : length (by_id_desc (fun r0 : Z * option (list (Z * Z)) => fst r0) rs) = N)
       by (unfold by_id_desc; rewrite rev_length, sort_by_length; exact Hlrs).
-    rewrite map_length, Hlen2.
     destruct ((cn_uid t <? 0) || (Z.of_nat N <=? cn_uid t)) eqn:E2; [lia|].
     replace (Z.to_nat (Z.of_nat N - 1 - cn_uid t)) with (N - 1 - Z.to_nat (cn_uid t))%nat by lia.
     rewrite nth_error_map.
